@@ -100,6 +100,7 @@ type Sched struct {
 	BlockedNote string
 	traceCap    int
 	stepsA      atomic.Int64 // mirror of steps, stored by the scheduler only
+	idleQ       []func()
 	pmu         sync.Mutex
 	// Panics lists real (non-abort) panics of tasks; read after Close.
 	Panics []string
@@ -196,6 +197,10 @@ func (s *Sched) Go(name string, group int, fn func()) int {
 // step number `step` (0-based).
 func (s *Sched) At(step int, fn func()) { s.at[step] = append(s.at[step], fn) }
 
+// WhenIdle registers fn to run on the scheduler goroutine the next time no
+// task is alive (callbacks run one at a time, in registration order).
+func (s *Sched) WhenIdle(fn func()) { s.idleQ = append(s.idleQ, fn) }
+
 // Steps returns the number of scheduling steps taken so far (callable from tasks).
 func (s *Sched) Steps() int { return int(s.stepsA.Load()) }
 
@@ -241,6 +246,12 @@ func (s *Sched) Run() {
 			}
 		}
 		if alive == 0 {
+			if len(s.idleQ) > 0 {
+				fn := s.idleQ[0]
+				s.idleQ = s.idleQ[1:]
+				fn()
+				continue
+			}
 			return
 		}
 		if len(ready) == 0 {
